@@ -127,6 +127,7 @@ func scenarioHostile() int {
 	var maxFds int
 	var maxHWM int64
 	sent, sentBytes, closedOK, closedChecked := 0, int64(0), 0, 0
+	slowBatches := 0
 	sinceRestart := 0
 	for sent < total && run.Violations() <= 4 {
 		var batch []hostileInput
@@ -155,37 +156,51 @@ func scenarioHostile() int {
 		sent += len(batch)
 		sinceRestart += len(batch)
 		sentBytes += bbytes
-		// a TCP connection carrying undecodable input must be closed
-		if c, err := w.Net.Dial("garbage", w.UAs[2].IP+":0", fmt.Sprintf("%s:%d", w.Svcs[0].IP, w.Svcs[0].TCP)); err == nil {
-			c.Send([]byte("THIS IS NOT SIP\r\n\r\n"), "")
-			closedChecked++
-			deadline := time.Now().Add(5 * time.Second)
-			for time.Now().Before(deadline) && !c.EOF() {
-				time.Sleep(2 * time.Millisecond)
-			}
-			if c.EOF() {
-				closedOK++
-			} else if w.Health() == "" {
-				run.Violation("a TCP connection carrying undecodable input was not closed within 5 s", map[string]any{"sent": "THIS IS NOT SIP\\r\\n\\r\\n"})
-			}
-			c.Close(false)
-		}
-		// health, probes
+		// health, probes. A probe that is missed is retried under a generous watchdog:
+		// a proxy that is merely busy with the backlog of a heavy batch on a loaded
+		// machine is slow, not stalled - only a probe that still fails after the
+		// watchdog counts
 		failed := ""
 		failedSvc := 0
-		if h := w.Health(); h != "" {
-			failed = "process"
-		} else {
+		firstProbes := func() (string, int) {
+			if h := w.Health(); h != "" {
+				return "process", 0
+			}
 			for s := range w.Svcs {
 				for _, p := range probes {
 					if !p.run(w, s) {
-						failed, failedSvc = p.name, s
-						break
+						if w.Health() != "" {
+							return "process", 0
+						}
+						return p.name, s
 					}
 				}
-				if failed != "" {
-					break
+			}
+			return "", 0
+		}
+		watchdog := time.Now().Add(90 * time.Second)
+		for {
+			failed, failedSvc = firstProbes()
+			if failed == "" || failed == "process" || time.Now().After(watchdog) {
+				break
+			}
+			slowBatches++
+		}
+		// a TCP connection carrying undecodable input must be closed (checked with the loop idle)
+		if failed == "" {
+			if c, err := w.Net.Dial("garbage", w.UAs[2].IP+":0", fmt.Sprintf("%s:%d", w.Svcs[0].IP, w.Svcs[0].TCP)); err == nil {
+				c.Send([]byte("THIS IS NOT SIP\r\n\r\n"), "")
+				closedChecked++
+				deadline := time.Now().Add(60 * time.Second)
+				for time.Now().Before(deadline) && !c.EOF() {
+					time.Sleep(2 * time.Millisecond)
 				}
+				if c.EOF() {
+					closedOK++
+				} else if w.Health() == "" {
+					run.Violation("a TCP connection carrying undecodable input was not closed within 60 s although the proxy is idle", map[string]any{"sent": "THIS IS NOT SIP\\r\\n\\r\\n"})
+				}
+				c.Close(false)
 			}
 		}
 		if failed != "" {
@@ -231,6 +246,7 @@ func scenarioHostile() int {
 	run.Observe("inputs_sent", sent)
 	run.Observe("bytes_sent", sentBytes)
 	run.Observe("probe_sets_passed", sent/B)
+	run.Observe("probe_sets_that_needed_a_retry_slow_not_stalled", slowBatches)
 	run.Observe("max_totalalloc_per_received_byte", maxRatio)
 	run.Observe("max_heapsys_mib", maxHeapSys>>20)
 	run.Observe("max_vmhwm_kib", maxHWM)
@@ -366,9 +382,19 @@ func hostileNarrow(run *ev.Run, w *wire.World, batch []hostileInput, probes []pr
 		}
 		return true
 	}
-	saved := w.BarrierWait
-	w.BarrierWait = 1500 * time.Millisecond
-	defer func() { w.BarrierWait = saved }()
+	once := check
+	check = func() bool {
+		// three tries: a slow answer is not a failure
+		for try := 0; try < 3; try++ {
+			if once() {
+				return true
+			}
+			if w.Health() != "" {
+				return false
+			}
+		}
+		return false
+	}
 	if w.StartProxy() != nil {
 		run.Violation("proxy cannot be restarted", map[string]any{"after": failed})
 		return
